@@ -108,6 +108,7 @@ fn max_end_children(v: &Vec<RTreeNode>) -> (r: (u32, u32))
 
 // ================= code under contract =================
 //@extract fn bigtools/src/bbi/bbiwrite.rs calculate_offsets
+//@rule R16
 //@rule R7 min=1
 //@sub /index_offsets\[level - 1\] \+= (\w+);/ => index_offsets.set(level - 1, index_offsets[level - 1] + \1); min=2
 //@sig
@@ -206,6 +207,7 @@ fn max_end_children(v: &Vec<RTreeNode>) -> (r: (u32, u32))
 //@end
 
 //@extract fn bigtools/src/bbi/bbiwrite.rs write_tree
+//@rule R16
 //@rule R3 min=16
 //@rule R6 min=2
 //@rule R7 min=3
@@ -337,6 +339,7 @@ fn max_end_children(v: &Vec<RTreeNode>) -> (r: (u32, u32))
 //@end
 
 //@extract fn bigtools/src/bbi/bbiwrite.rs write_rtreeindex
+//@rule R16
 //@rule R3 min=14
 //@sub /pub\(crate\) fn write_rtreeindex<W: Write \+ Seek>\(/ => fn write_rtreeindex(
 //@sub /file: &mut W,/ => file: &mut ASink,
